@@ -51,29 +51,29 @@ mod sp_dual__permpar;
 mod longest_capped__pari;
 mod set_reach__run;
 mod set_reach__runpar;
-mod cp__to;
-mod bool_lat__ser;
-mod lat_multi_improve__pari;
-mod count_paths__pari;
-mod count_paths__src2;
-mod neg_basic__to;
-mod neg_basic__redecl;
-mod neg_basic__exp;
-mod agg_depth__to;
-mod agg_user__par;
-mod agg_bound_mix__par;
-mod agg_empty_rel__par;
-mod agg_const_args__exppar;
-mod disj__gen;
-mod disj__perm1;
-mod disj_nested__pari;
-mod rep_expr__ser;
-mod multi_head_disj__exp;
-mod mac_basic__par;
-mod mac_basic__src1;
-mod mac_capture__ser;
-mod mac_nested__exp;
-mod mac_disj__par;
+mod cp__par;
+mod lex_lat__par;
+mod lat_multi_improve__ser;
+mod count_paths__ser;
+mod count_paths__src0;
+mod neg_basic__par;
+mod neg_basic__src1;
+mod neg_basic__ren;
+mod agg_depth__par;
+mod agg_lattice__topar;
+mod neg_rec_after__exppar;
+mod agg_empty__topar;
+mod agg_const_args__pari;
+mod disj__run;
+mod disj__runpar;
+mod disj_nested__ser;
+mod pat_args__exp;
+mod multi_head_disj__par;
+mod neg_in_disj__exppar;
+mod mac_basic__gen;
+mod mac_basic__exp;
+mod mac_nested__par;
+mod mac_gensym_disj__exppar;
 
 fn lookup(name: &str) -> fn() -> Box<dyn Driven> {
    match name {
@@ -120,29 +120,29 @@ fn lookup(name: &str) -> fn() -> Box<dyn Driven> {
       "longest_capped__pari" => longest_capped__pari::make,
       "set_reach__run" => set_reach__run::make,
       "set_reach__runpar" => set_reach__runpar::make,
-      "cp__to" => cp__to::make,
-      "bool_lat__ser" => bool_lat__ser::make,
-      "lat_multi_improve__pari" => lat_multi_improve__pari::make,
-      "count_paths__pari" => count_paths__pari::make,
-      "count_paths__src2" => count_paths__src2::make,
-      "neg_basic__to" => neg_basic__to::make,
-      "neg_basic__redecl" => neg_basic__redecl::make,
-      "neg_basic__exp" => neg_basic__exp::make,
-      "agg_depth__to" => agg_depth__to::make,
-      "agg_user__par" => agg_user__par::make,
-      "agg_bound_mix__par" => agg_bound_mix__par::make,
-      "agg_empty_rel__par" => agg_empty_rel__par::make,
-      "agg_const_args__exppar" => agg_const_args__exppar::make,
-      "disj__gen" => disj__gen::make,
-      "disj__perm1" => disj__perm1::make,
-      "disj_nested__pari" => disj_nested__pari::make,
-      "rep_expr__ser" => rep_expr__ser::make,
-      "multi_head_disj__exp" => multi_head_disj__exp::make,
-      "mac_basic__par" => mac_basic__par::make,
-      "mac_basic__src1" => mac_basic__src1::make,
-      "mac_capture__ser" => mac_capture__ser::make,
-      "mac_nested__exp" => mac_nested__exp::make,
-      "mac_disj__par" => mac_disj__par::make,
+      "cp__par" => cp__par::make,
+      "lex_lat__par" => lex_lat__par::make,
+      "lat_multi_improve__ser" => lat_multi_improve__ser::make,
+      "count_paths__ser" => count_paths__ser::make,
+      "count_paths__src0" => count_paths__src0::make,
+      "neg_basic__par" => neg_basic__par::make,
+      "neg_basic__src1" => neg_basic__src1::make,
+      "neg_basic__ren" => neg_basic__ren::make,
+      "agg_depth__par" => agg_depth__par::make,
+      "agg_lattice__topar" => agg_lattice__topar::make,
+      "neg_rec_after__exppar" => neg_rec_after__exppar::make,
+      "agg_empty__topar" => agg_empty__topar::make,
+      "agg_const_args__pari" => agg_const_args__pari::make,
+      "disj__run" => disj__run::make,
+      "disj__runpar" => disj__runpar::make,
+      "disj_nested__ser" => disj_nested__ser::make,
+      "pat_args__exp" => pat_args__exp::make,
+      "multi_head_disj__par" => multi_head_disj__par::make,
+      "neg_in_disj__exppar" => neg_in_disj__exppar::make,
+      "mac_basic__gen" => mac_basic__gen::make,
+      "mac_basic__exp" => mac_basic__exp::make,
+      "mac_nested__par" => mac_nested__par::make,
+      "mac_gensym_disj__exppar" => mac_gensym_disj__exppar::make,
       _ => panic!("no such program variant in this shard: {}", name),
    }
 }
